@@ -315,7 +315,10 @@ def task(wid, seed, params):
 
 def replay(rp):
     if rp.get('kind') == 'wasi-many':
-        return run_many(rp['case']) is not None
+        try:
+            return run_many(rp['case']) is not None
+        except AgentDied:
+            return True          # the agent died under a sanitizer report: that is the failure being replayed
     return wasifs.replay_history(rp['history'], rp.get('npreopen', 1)) is not None
 
 
